@@ -240,6 +240,7 @@ theorem runFx_sim (a : Actor) (s : St) (f : Fx) (hl : Live a s) :
   | forget k =>
     simp only [runFx]
     split <;> exact ⟨s, by simp [accepts_cons], rfl, rfl, ⟨by simpa using hl.queue, hl.over, hl.entered⟩⟩
+  | spawnChild c => exact ⟨s, by simp [runFx, accepts_cons, next], rfl, rfl, hl⟩
 
 theorem runFxs_sim (fs : List Fx) (a : Actor) (s : St) (hl : Live a s) :
     Sim next (FxRel a.phase s.idle) s (runFxs a fs) := by
